@@ -186,8 +186,10 @@ func genC05With(zeroPct int) func(t *rapid.T) C05Scenario {
 	return func(t *rapid.T) C05Scenario {
 		s := C05Scenario{Mode: pick(t, "mode", []int{1, 1, 2})}
 		cfg := GenCfg{ZeroPct: zeroPct, Exotic: true, MetaPct: 25, VoidPct: 8, MsgpackOK: true}
+		// expiry for Increment / Patch metadata: also pre-1970 times with nanoseconds
+		// (Set ignores a non-positive ExpiredAt, the metadata paths store it)
 		absExp := func(t *rapid.T) *When {
-			w := pick(t, "exp", absTimes)
+			w := pick(t, "exp", c05ExpTimes)
 			return &w
 		}
 		n := rapid.IntRange(1, 25).Draw(t, "nops")
@@ -240,6 +242,8 @@ func genC05With(zeroPct int) func(t *rapid.T) C05Scenario {
 		return s
 	}
 }
+
+var c05ExpTimes = append(append([]When{}, absTimes...), When{Sec: -1, Nano: 5}, When{Sec: -1000000000}, When{Sec: -86400, Nano: 999999999})
 
 var c05Case atomic.Int64
 
@@ -369,7 +373,7 @@ func runC05(h *RigHolder, guards Guards, wd time.Duration) func(C05Scenario) pbt
 }
 
 const c05Rule = "rapid-generated histories (1-25 ops) on one persistent swamp (write interval 1 s or 0): Set with all 15 value kinds (incl. NaN, -0.0, 300-byte and msgpack bytes) " +
-	"and optional CreatedAt/By, UpdatedAt/By, ExpiredAt; all ten Increment* with conditions and metadata; PatchTreasures (create, SET/INC/DELETE ops, request- and key-level meta incl. set/clear expiry); " +
+	"and optional CreatedAt/By, UpdatedAt/By, ExpiredAt; all ten Increment* with conditions and metadata (expiries incl. pre-1970 with nanoseconds); PatchTreasures (create, SET/INC/DELETE ops, request- and key-level meta incl. set/clear expiry); " +
 	"Uint32SlicePush/Delete; Delete; ShiftByKeys; 1-3 reloads per history (CloseSwamp; about 1 in 200 through a real StopHydra + new rig on the same root). " +
 	"Oracle: Get, GetByKeys, GetAll, GetByIndex(KEY), Count and IsKeyExist for all six keys taken immediately before the close equal (deterministic wire bytes, so floats by bits) those taken after the reload; " +
 	"non-trivial = (a typed zero-like value was reloaded or a record loaded from disk was modified) and a key was deleted; distinct = hash of the scenario"
